@@ -345,7 +345,8 @@ R_<TG_, TA_>::replayTransitions(const Transition* const transitions,
 	_core.transitionTargets  .clear();
 	_core.previousTransitions.clear();
 
-	if (HFSM2_CHECKED(transitions && count)) {
+	// a list longer than a processing call can ever record is rejected as a whole
+	if (HFSM2_CHECKED(transitions && count) && count <= TransitionSets::CAPACITY) {
 		TransitionSets currentTransitions;
 		PlanControl control{_core, currentTransitions};
 
